@@ -33,6 +33,20 @@ Theorem C03_failure_before_commit_commits_nothing :
 Proof. intros. split; [apply body_all_no_commit|apply abort_events_no_commit]. Qed.
 Print Assumptions C03_failure_before_commit_commits_nothing.
 
+(* LMTP: a recipient's reply is a success only if every delivery the recipient was added to got the
+   body successfully and was committed - whatever the other targets of the transaction did, and
+   however many targets the recipient is routed to.  ([r_ok sts r && cok] is the reply [do_data]
+   computes for r from the statuses reported during the body stage and the result of Commit.) *)
+Theorem C03_lmtp_success_means_every_target_committed :
+  forall c txn open ev1 open' sts ev2 cok r,
+    body_na c txn open = (ev1, open', sts) -> commit_all c txn open' false false = (ev2, cok) ->
+    forallb (fun x : N * bool => negb (fst x =? r) || snd x) sts && cok = true ->
+    forall o, In o open -> In r (od_rcpts o) -> od_bodyfailed o = false ->
+      (In (txn, od_t o, od_i o, EBodyNA true) ev1 \/ In (txn, od_t o, od_i o, EBody true) ev1) /\
+      In (txn, od_t o, od_i o, ECommit true) ev2.
+Proof. exact lmtp_success_means_committed. Qed.
+Print Assumptions C03_lmtp_success_means_every_target_committed.
+
 (* non-vacuity: a session with a failing second target *)
 Example C03_example :
   let cf := {| lmtp := false; deferred := true; routes := [(1, [0; 1])];
